@@ -53,20 +53,21 @@ type wDelivery struct {
 }
 
 type wOp struct {
-	K     string     `json:"k"` // addhandler addmw addhmw addpubdec addsubdec start deliver
-	H     *wHandler  `json:"h,omitempty"`
-	Name  string     `json:"name,omitempty"` // addhmw: handler name
-	ID    int        `json:"id,omitempty"`   // middleware / decorator id
-	App   bool       `json:"app,omitempty"`  // middleware appends message 100+id to a successful result
-	D     *wDelivery `json:"d,omitempty"`
-	Grp   int        `json:"grp,omitempty"`   // consecutive ops with the same non-zero grp are ONE variadic call / one concurrent batch
-	Dup   bool       `json:"dup,omitempty"`   // addhandler: observed DuplicateHandlerNameError panic
-	Fails int        `json:"fails,omitempty"` // addpubdec/addsubdec: the constructor returns an error the first Fails times it is called
-	Fail  bool       `json:"fail,omitempty"`  // start: the generator expects RunHandlers to return an error (a constructor still fails)
-	Early bool       `json:"early,omitempty"` // stop: the following ops marked Win run inside the teardown window (name free, Stopped() not closed yet)
-	Win   bool       `json:"win,omitempty"`
-	Lib   bool       `json:"lib,omitempty"`   // addpubdec/addsubdec: the decorator is the library's own MessageTransform{Publisher,Subscriber}Decorator with a recording transform
-	Names []string   `json:"names,omitempty"` // startasync: the handlers whose goroutines are held before their copy of r.middlewares
+	K       string     `json:"k"` // addhandler addmw addhmw addpubdec addsubdec start deliver
+	H       *wHandler  `json:"h,omitempty"`
+	Name    string     `json:"name,omitempty"` // addhmw: handler name
+	ID      int        `json:"id,omitempty"`   // middleware / decorator id
+	App     bool       `json:"app,omitempty"`  // middleware appends message 100+id to a successful result
+	D       *wDelivery `json:"d,omitempty"`
+	Grp     int        `json:"grp,omitempty"`   // consecutive ops with the same non-zero grp are ONE variadic call / one concurrent batch
+	Dup     bool       `json:"dup,omitempty"`   // addhandler: observed DuplicateHandlerNameError panic
+	Fails   int        `json:"fails,omitempty"` // addpubdec/addsubdec: the constructor returns an error the first Fails times it is called
+	Fail    bool       `json:"fail,omitempty"`  // start: the generator expects RunHandlers to return an error (a constructor still fails)
+	Early   bool       `json:"early,omitempty"` // stop: the following ops marked Win run inside the teardown window (name free, Stopped() not closed yet)
+	Win     bool       `json:"win,omitempty"`
+	Lib     bool       `json:"lib,omitempty"`     // addpubdec/addsubdec: the decorator is the library's own MessageTransform{Publisher,Subscriber}Decorator with a recording transform
+	Backlog bool       `json:"backlog,omitempty"` // deliver: the message is already waiting when the preceding start subscribes: new subscriptions get it INSIDE Subscribe
+	Names   []string   `json:"names,omitempty"`   // startasync: the handlers whose goroutines are held before their copy of r.middlewares
 }
 
 type wCopy struct {
@@ -97,6 +98,7 @@ type wProgram struct {
 	PlugRan bool           `json:"plugran"` // Run was called
 	PlugOK  bool           `json:"plugok"`  // ... and no plugin returned an error
 	Views   [][]string     `json:"views"`   // what each Handlers() call reported (sorted)
+	SlowSub []bool         `json:"slowsub"` // subscriber objects whose String() takes a few milliseconds
 }
 
 func (c *wCopy) rec(ev ...interface{}) {
@@ -121,6 +123,7 @@ type fanSub struct {
 	mu     sync.Mutex
 	subs   []*fanSubscription
 	closed bool
+	onNew  func(topic string, sub *fanSubscription) // called inside Subscribe, before it returns (backlog)
 }
 
 func (s *fanSub) Subscribe(ctx context.Context, topic string) (<-chan *message.Message, error) {
@@ -131,6 +134,9 @@ func (s *fanSub) Subscribe(ctx context.Context, topic string) (<-chan *message.M
 	}
 	sub := &fanSubscription{topic: topic, ch: make(chan *message.Message), done: make(chan struct{})}
 	s.subs = append(s.subs, sub)
+	if s.onNew != nil {
+		s.onNew(topic, sub)
+	}
 	go func() {
 		select {
 		case <-ctx.Done():
@@ -189,9 +195,16 @@ func (x *fanSubscription) send(m *message.Message, d time.Duration) (ok bool) {
 type namedFanSub struct {
 	fanSub
 	name string
+	slow time.Duration
 }
 
-func (s *namedFanSub) String() string { return s.name }
+// String is what internal.StructName asks for; a subscriber may need a moment to say who it is
+func (s *namedFanSub) String() string {
+	if s.slow > 0 {
+		time.Sleep(s.slow)
+	}
+	return s.name
+}
 
 type plainFanSub struct{ fanSub }
 
@@ -244,6 +257,10 @@ type wRun struct {
 	want    int
 	release chan struct{}
 	outputs map[int][]*message.Message // delivery number -> messages its Publish call received (for chained deliveries)
+	// backlog deliveries: copies handed to new subscriptions inside Subscribe
+	blCopies map[*wDelivery][]*wCopy
+	blSubs   map[*wDelivery]map[*fanSubscription]bool
+	blWG     map[*wDelivery]*sync.WaitGroup
 }
 
 // how long the harness waits for the router before it calls a message "not taken" / "not settled":
@@ -390,7 +407,15 @@ func (t *tagPub) Publish(topic string, msgs ...*message.Message) error {
 	return t.inner.Publish(topic, msgs...) // nil interface: panics, as any embedding decorator would
 }
 
-func (t *tagPub) Close() error { return t.inner.Close() } // like an embedding decorator: no nil guard
+func (t *tagPub) Close() error {
+	if t == nil || t.inner == nil {
+		if t != nil {
+			t.r.anomaly("publisher decorator %d: Close on a decorator around a nil publisher", t.id)
+		}
+		return nil
+	}
+	return t.inner.Close()
+}
 
 func (r *wRun) pubDecorator(id int, fails int, lib bool) message.PublisherDecorator {
 	var calls int32
@@ -549,7 +574,8 @@ const wLibSubTy = "message.messageTransformSubscriberDecorator"
 const wLibPubTy = "message.messageTransformPublisherDecorator"
 
 func wRunProgram(p *wProgram, in *script.Interner) {
-	r := &wRun{p: p, byPtr: map[*message.Message]*wCopy{}, byKey: map[string]*wCopy{}, in: in, outputs: map[int][]*message.Message{}}
+	r := &wRun{p: p, byPtr: map[*message.Message]*wCopy{}, byKey: map[string]*wCopy{}, in: in, outputs: map[int][]*message.Message{},
+		blCopies: map[*wDelivery][]*wCopy{}, blSubs: map[*wDelivery]map[*fanSubscription]bool{}, blWG: map[*wDelivery]*sync.WaitGroup{}}
 	for i, ty := range p.SubTy {
 		if ty == wLibSubTy {
 			// the application hands the router a subscriber it has ALREADY wrapped with the library's transform
@@ -567,6 +593,9 @@ func wRunProgram(p *wProgram, in *script.Interner) {
 			r.fans = append(r.fans, &s.fanSub)
 		} else {
 			s := &namedFanSub{name: ty}
+			if i < len(p.SlowSub) && p.SlowSub[i] {
+				s.slow = 4 * time.Millisecond
+			}
 			r.subs = append(r.subs, s)
 			r.fans = append(r.fans, &s.fanSub)
 		}
@@ -600,7 +629,17 @@ func wRunProgram(p *wProgram, in *script.Interner) {
 	runErr := make(chan error, 1)
 	nDeliver := 0
 	ops := p.Ops
+	blArmed := false
 	for i := 0; i < len(ops); {
+		if blArmed {
+			// the start is over: later subscriptions get no copy of those messages
+			for _, f := range r.fans {
+				f.mu.Lock()
+				f.onNew = nil
+				f.mu.Unlock()
+			}
+			blArmed = false
+		}
 		o := ops[i]
 		j := i + 1
 		for o.Grp != 0 && j < len(ops) && ops[j].Grp == o.Grp && ops[j].K == o.K {
@@ -683,6 +722,65 @@ func wRunProgram(p *wProgram, in *script.Interner) {
 					rules = append(rules, rule)
 					snapRules[nm] = rule
 				}
+			}
+			if o.K == "start" && !o.Fail {
+				// messages already waiting on a topic: the deliveries marked Backlog that follow this start are handed
+				// to every subscription it creates from INSIDE Subscribe (the context decorator's pump gets them at once)
+				for j, k := i, nDeliver; j < len(ops) && ops[j].K == "deliver" && ops[j].Backlog; j++ {
+					k++
+					d, num := ops[j].D, k
+					r.blSubs[d] = map[*fanSubscription]bool{}
+					r.blWG[d] = &sync.WaitGroup{}
+					fan := r.fans[d.Sub]
+					prev := fan.onNew
+					fan.onNew = func(topic string, sub *fanSubscription) {
+						if prev != nil {
+							prev(topic, sub)
+						}
+						if topic != d.Topic {
+							return
+						}
+						r.nCopy++
+						m := message.NewMessage(fmt.Sprintf("m%d", num), []byte(fmt.Sprintf("payload %d", num)))
+						m.Metadata.Set("n", strconv.Itoa(num))
+						if d.UTag != 0 || d.UCancel {
+							uc := context.WithValue(context.Background(), wUserKey{}, d.UTag)
+							if d.UCancel {
+								cc, cancel := context.WithCancel(uc)
+								cancel()
+								uc = cc
+							}
+							m.SetContext(uc)
+						}
+						c := &wCopy{Owner: "?", key: fmt.Sprintf("m%d.c%d", num, r.nCopy), msg: m, orig: m.Copy(), produced: map[int]*message.Message{}, d: d, Trace: [][]interface{}{}}
+						r.mu.Lock()
+						r.byPtr[m] = c
+						r.byKey[c.key] = c
+						r.mu.Unlock()
+						r.blCopies[d] = append(r.blCopies[d], c)
+						r.blSubs[d][sub] = true
+						w := r.blWG[d]
+						w.Add(1)
+						go func() {
+							defer w.Done()
+							if !sub.send(m, wPatience) {
+								c.rec("not-taken")
+								r.anomaly("backlog copy %s was not taken by its subscription", c.key)
+								return
+							}
+							switch script.WaitSettled(m, wPatience) {
+							case 1:
+								c.rec("settle", true)
+							case 2:
+								c.rec("settle", false)
+							default:
+								c.rec("unsettled")
+								r.anomaly("backlog copy %s was not settled", c.key)
+							}
+						}()
+					}
+				}
+				blArmed = true
 			}
 			if !running {
 				running = true
@@ -891,8 +989,11 @@ func (r *wRun) deliverBatch(group []*wOp, nDeliver *int) {
 		} else {
 			d.UTag, d.UCancel = wUser(base.Context())
 		}
-		obs := []*wCopy{}
+		obs := append([]*wCopy{}, r.blCopies[d]...)
 		for _, sub := range r.fans[d.Sub].matching(d.Topic) {
+			if r.blSubs[d][sub] {
+				continue // got its copy inside Subscribe
+			}
 			r.nCopy++
 			var m *message.Message
 			if base != nil {
@@ -954,6 +1055,11 @@ func (r *wRun) deliverBatch(group []*wOp, nDeliver *int) {
 		}(e)
 	}
 	wg.Wait()
+	for _, g := range group {
+		if w := r.blWG[g.D]; w != nil {
+			w.Wait()
+		}
+	}
 	// remember what each delivery published (first Publish call of its first copy) for chained deliveries
 	for gi, g := range group {
 		_ = g
@@ -1163,6 +1269,7 @@ func (g *wGen) start() {
 	g.op(&wOp{K: "start"})
 	g.running = true
 	seen := map[string]bool{}
+	ordinary := false
 	for _, h := range g.added {
 		if g.started[h.Name] {
 			continue
@@ -1173,7 +1280,16 @@ func (g *wGen) start() {
 			continue
 		}
 		seen[key] = true
-		g.pushDelivery(g.delivery(h.Sub, h.SubTopic), 0)
+		d := g.delivery(h.Sub, h.SubTopic)
+		if g.pick(2) == 0 && !ordinary {
+			// the message is already waiting on the topic when the handler subscribes
+			d.Chain = 0
+			g.pushDelivery(d, 0)
+			g.p.Ops[len(g.p.Ops)-1].Backlog = true
+		} else {
+			ordinary = true // the backlog deliveries directly follow the start
+			g.pushDelivery(d, 0)
+		}
 	}
 }
 
@@ -1331,6 +1447,7 @@ func newProgram(rng *rand.Rand, kind string) *wGen {
 	subTypes := []string{"main.plainFanSub", "gochannel.GoChannel", "fan.Sub", "", "fan.Sub", wLibSubTy, wLibSubTy}
 	for i := 0; i < nsub; i++ {
 		p.SubTy = append(p.SubTy, subTypes[rng.Intn(len(subTypes))])
+		p.SlowSub = append(p.SlowSub, rng.Intn(3) == 0)
 	}
 	npub := 1 + rng.Intn(3)
 	pubTypes := []string{"script.Publisher", "kafka.Publisher", "", "kafka.Publisher", wLibPubTy}
